@@ -41,7 +41,7 @@ def insertSorted (x : Bytes × Entry) : List (Bytes × Entry) → List (Bytes ×
 def readDir (children : List (Bytes × Entry)) : List (Bytes × Entry) := children.foldr insertSorted []
 
 /-- `filepath.Join(dir, name)` for a clean `dir` and a plain `name` -/
-def join (dir name : Bytes) : Bytes := dir ++ [47] ++ name
+def join (dir name : Bytes) : Bytes := if dir = [46] then name else dir ++ [47] ++ name   -- Join(".", n) is cleaned to n
 
 mutual
 /-- one entry met by the loop of `inspectDirectory(dir, d)` (d = remainingDepth ≥ 0 of the directory being
@@ -81,7 +81,10 @@ inductive ArgOutcome where
 
 def inspectArg (recursive : Bool) (cwd : List (Bytes × Entry)) (arg : Bytes) : ArgOutcome :=
   match cwd.lookup arg with
-  | none => .fatal                                   -- os.Stat fails: nonexistent path
+  | none =>
+    if arg = [46] then                                 -- ".": the working directory itself (never an entry name)
+      (if recursive then .events (inspectDirectory arg cwd) else .fatal)
+    else .fatal                                        -- os.Stat fails: nonexistent path
   | some .dangling => .fatal                         -- os.Stat follows the link and fails
   | some (.dir children) =>
     if recursive then .events (inspectDirectory arg children) else .fatal
